@@ -164,7 +164,20 @@ static void sec_rle_exh(int scale) {
     v_sample("rle_exh: all binary sequences up to length %d at width 1, all ternary up to %d at width 2", L2, L3);
 }
 
+/* runs longer than the 31 bits a run header can hold (thorough tier: about 2^31 encoder calls): the stream must still describe every value.
+ * The decoder side is walked with skip(), so nothing of that size is ever stored. */
+static void huge_run_case(void) { static const int64_t LENS[] = {2147483654LL, 2147483655LL, 2147483660LL};   /* 7 values of the run top up the open literal group: the run itself is 2^31-1, 2^31, 2^31+5 long */ for (int q = 0; q < 3; q++) { int64_t n = LENS[q]; carquet_buffer_t b; carquet_buffer_init(&b); carquet_rle_encoder_t e; carquet_rle_encoder_init(&e, &b, 3);
+        carquet_status_t st = carquet_rle_encoder_put(&e, 5); if (st == CARQUET_OK) st = carquet_rle_encoder_put_repeat(&e, 6, n); if (st == CARQUET_OK) st = carquet_rle_encoder_put(&e, 2); if (st == CARQUET_OK) st = carquet_rle_encoder_flush(&e); v_case(v_hash(&n, 8, 77)); v_count("rle_runs_longer_than_2^31");
+        if (st != CARQUET_OK) { v_count("rle_encode_refused"); carquet_buffer_destroy(&b); continue; }
+        uint8_t* enc = v_exact_copy(b.data, b.size); carquet_rle_decoder_t d; carquet_rle_decoder_init(&d, enc, b.size, 3); int64_t total = 0; uint32_t first = carquet_rle_decoder_has_next(&d) ? carquet_rle_decoder_get(&d) : 99; total++; uint32_t last = 99;
+        for (;;) { int64_t k = carquet_rle_decoder_skip(&d, 1 << 30); if (k <= 0) break; total += k; if (total > n + 100) break; }
+        /* skip() ran to the end: re-walk to fetch the last value */
+        carquet_rle_decoder_init(&d, enc, b.size, 3); int64_t sk = 0; while (sk < n + 1) { int64_t k = carquet_rle_decoder_skip(&d, n + 1 - sk < (1 << 30) ? n + 1 - sk : (1 << 30)); if (k <= 0) break; sk += k; } if (carquet_rle_decoder_has_next(&d)) last = carquet_rle_decoder_get(&d);
+        if (total < n + 2 || total > n + 9 || first != 5 || last != 2) v_viol("rle:huge-run-truncated", "1 + %lld + 1 values written with status OK; the stream (%zu bytes) holds %lld values, first=%u last=%u", (long long)n, b.size, (long long)total, first, last);
+        free(enc); carquet_buffer_destroy(&b); } }
+
 static void sec_rle_runs(int scale) {
+    if (scale >= 2) huge_run_case();
     /* all run-length triples (a,b,c) of alternating runs, several widths, values scaled to the width */
     int M = scale >= 2 ? 26 : 18;
     static const int widths[] = {1, 2, 3, 4, 5, 7, 8, 9, 15, 16, 17, 24, 31, 32};
